@@ -1,4 +1,9 @@
 import Abyss.Props.C14
+import Abyss.Lemmas.ApiGenL
+#print axioms Abyss.apiBulkGet_eq
+#print axioms Abyss.apiBulkDelete_eq
+#print axioms Abyss.apiBulkPut_eq
+#print axioms Abyss.apiPutFromIter_eq
 #print axioms Abyss.C14_bulk_get
 #print axioms Abyss.C14_bulk_delete
 #print axioms Abyss.C14_delete_elementwise
